@@ -40,6 +40,10 @@ CHECKS = {
    technique="deterministic simulation: seeded histories on one simulated seekable stream where dereference is deferred I/O interleaved with other reads/seeks/parses; null, stream-less and dangling pointers as faults; differential oracle against stand-alone parses at the absolute address",
    text="Seeded search over (pointer width 8-64, endianness, compiled/interpreted, align; root structs with T*, char*, T**, pointer arrays; memory images with valid, null, dangling, edge and self-overlapping addresses; histories of parse/deref/re-deref/arithmetic/attribute/str/raw seek+read/dumps/default-pointer ops on ONE stream). Oracles: stored value = unsigned integer of the configured width at the field; root consumes the declared size; dereference = stand-alone parse at the address, leaves the stream where it was, repeats identically; arithmetic keeps type and stream; null/stream-less raise NullPointerDereference; dumps writes addresses back. Sampling.",
    note="Trusts: packed layout computed by the harness, aligned offsets from the library; position after a failing dereference unconstrained; error class for dangling addresses unspecified."),
+ "C10": dict(engine="E-EXPR", cat="exploration", ref="4.4",
+   technique="deterministic simulation: seeded evaluation histories on shared Expression objects (repeat, other context, after failing evaluations, after constant redefinition, through array-length parses and enum/#define embedding) judged step by step by a reference precedence-climbing evaluator",
+   text="Seeded search over (pools of well-formed expression texts from the statement's grammar, constants, histories of 4-24 ops on the same Expression objects). Every evaluation is compared with a reference evaluator (unbounded ints, C precedence, left associativity, context-then-constants lookup; itself cross-checked against Python's parser) and with a fresh Expression object; evaluations that must fail (unbound identifier, division by zero) are the injected faults and must raise and leave no trace. The history clause is decided by the search; single-evaluation precedence rides on the per-step oracle and is sampled, not enumerated.",
+   note="Trusts: the reference evaluator; unspecified cases (negative operands of / and %, negative or >256-bit shifts, magnitudes above 2**512) are compared only reused-vs-fresh; lengths foldable at load time are not re-evaluated after constant redefinition."),
 }
 PENDING = {'C05': 'check not built yet in this revision (planned engine, DESIGN 4); not claimed until its check exists', 'C09': 'check not built yet in this revision (planned engine, DESIGN 4); not claimed until its check exists', 'C10': 'check not built yet in this revision (planned engine, DESIGN 4); not claimed until its check exists', 'C11': 'check not built yet in this revision (planned engine, DESIGN 4); not claimed until its check exists', 'C13': 'check not built yet in this revision (planned engine, DESIGN 4); not claimed until its check exists', 'C14': 'check not built yet in this revision (planned engine, DESIGN 4); not claimed until its check exists', 'C15': 'check not built yet in this revision (planned engine, DESIGN 4); not claimed until its check exists', 'C16': 'check not built yet in this revision (planned engine, DESIGN 4); not claimed until its check exists', 'C17': 'check not built yet in this revision (planned engine, DESIGN 4); not claimed until its check exists', 'C18': 'check not built yet in this revision (planned engine, DESIGN 4); not claimed until its check exists'}
 
